@@ -74,6 +74,8 @@ def configs(tier, seed):
         for header in ("names", "letters"):
             for index in (True, False):
                 out.append(dict(h="sparse_roundtrip", op=name, key=f"sparse_roundtrip/{name}/index={int(index)}/{header}", ds=name, index=index, header=header))
+                # ... and with the last dimension spread over the columns (a row of the wide table then holds empty cells next to filled ones)
+                out.append(dict(h="sparse_roundtrip", op=name + "w", key=f"sparse_roundtrip/{name}/index={int(index)}/{header}/wide", ds=name, index=index, header=header, wide=True))
     for index in (True, False):
         for rows in ("id", "rev"):
             out.append(dict(h="large", op="large", key=f"large/182x182/index={int(index)}/rows={rows}", ds="r2", n=182, index=index, rows=rows))
@@ -235,13 +237,17 @@ def run(cfg, w):
     if h == "sparse_roundtrip":
         # entries of the last item of the first dimension are all zero, one more entry elsewhere is zero
         zero = [idx for idx in np.ndindex(*dims.shape) if idx[0] == dims.shape[0] - 1] + [tuple(0 for _ in dims.shape)]
+        if cfg.get("wide"):
+            # (every item of the spread dimension keeps a non-zero entry: a wide frame that lost an item column altogether is
+            #  ambiguous, C12 calls it unspecified)
+            zero = [tuple(0 for _ in dims.shape)]
         for idx in np.ndindex(*dims.shape):
             if idx in zero:
                 X[idx] = 0
                 x.values[idx] = 0
             else:
                 w.assume(w.ne(X[idx], 0))
-        df = x.to_df(index=cfg["index"], sparse=True)
+        df = x.to_df(index=cfg["index"], sparse=True, dim_to_columns=(spec[-1][1] if cfg.get("wide") else None))
         n2l = {sp[1]: sp[0] for sp in spec}
         if cfg["header"] == "letters":
             df = df.rename_axis(index=lambda n: n2l.get(n, n)) if cfg["index"] else df.rename(columns=n2l)
